@@ -1,4 +1,280 @@
-"""C17 oracle (placeholder until the DSSP peer world is built)."""
+"""C17 oracle: per-residue annotations and their translation to Martini classes.
+
+Evaluated at the stage boundaries of the real processors inside the simulated run:
+``AnnotateResidues`` (-ss / -collagen), ``AnnotateDSSP`` (with the simulated peer) and
+``AnnotateMartiniSecondaryStructures``.  Independent pieces: the residue enumeration
+(groups of (chain, resid, insertion code, resname) ordered by their lowest node key, i.e. input order), the three
+length rules of the statement, and a run-length transcription of the helix rules.
+"""
+import collections
+
+TABLE = {'H': 'H', 'G': 'H', 'I': 'H', '1': 'H', '2': 'H', '3': 'H', 'B': 'E', 'E': 'E', 'T': 'T', 'S': 'S', 'C': 'C'}
+
+
+def martini_classes(seq):
+    """DSSP classes -> Martini classes (length preserving)."""
+    cg = [TABLE[c] for c in seq]
+    out = list(cg)
+    n = len(cg)
+    i = 0
+    while i < n:
+        if cg[i] != 'H':
+            i += 1
+            continue
+        j = i
+        while j < n and cg[j] == 'H':
+            j += 1
+        length = j - i
+        if length <= 4:
+            run = '3' * length
+        elif length == 5:
+            run = '13332'
+        elif length == 6:
+            run = '113322'
+        elif length == 7:
+            run = '1113222'
+        else:
+            run = '1111' + 'H' * (length - 8) + '2222'
+        out[i:j] = list(run)
+        i = j
+    return out
+
+
+def residues_of(mol):
+    """[(identity, [node keys])] in order of first appearance."""
+    order = []
+    groups = collections.OrderedDict()
+    for key in mol.nodes:
+        a = mol.nodes[key]
+        ident = (a.get('chain'), a.get('resid'), a.get('insertion_code'), a.get('resname'))
+        if ident not in groups:
+            groups[ident] = []
+            order.append(ident)
+        groups[ident].append(key)
+    # residues are counted in the order of the input: by their lowest node key (atoms that were re-added by
+    # the repair step carry higher keys, and the node order itself may have been permuted)
+    try:
+        order.sort(key=lambda ident: min(groups[ident]))
+    except TypeError:
+        pass
+    return [(ident, groups[ident]) for ident in order]
+
+
+def contiguous(mol):
+    """True when node order never returns to an earlier residue (otherwise 'k-th residue' is ambiguous)."""
+    seen = set()
+    last = None
+    for key in mol.nodes:
+        a = mol.nodes[key]
+        ident = (a.get('chain'), a.get('resid'), a.get('insertion_code'), a.get('resname'))
+        if ident != last:
+            if ident in seen:
+                return False
+            seen.add(ident)
+            last = ident
+    return True
+
+
+class Oracle:
+    def __init__(self, child):
+        self.child = child
+        self.before = {}
+
+    # -- AnnotateResidues ------------------------------------------------------
+    def begin_annotate_residues(self, proc, system):
+        selected = []
+        snap = []
+        for mol in system.molecules:
+            sel = bool(proc.molecule_selector(mol))
+            selected.append(sel)
+            snap.append({k: mol.nodes[k].get(proc.attribute, None) for k in mol.nodes})
+        self.before['AnnotateResidues'] = (selected, snap, [residues_of(m) for m in system.molecules],
+                                           [contiguous(m) for m in system.molecules])
+
+    def end_annotate_residues(self, proc, system, raised):
+        child = self.child
+        selected, snap, residues, contig = self.before.pop('AnnotateResidues')
+        seq = list(proc.sequence)
+        lengths = [len(r) for r, s in zip(residues, selected) if s]
+        total = sum(lengths)
+        stats = child.stats
+        stats.probes['ss_annotate_residues'] += 1
+        if any(not s for s in selected) and any(selected):
+            stats.probes['ss_unselected_present'] += 1
+            first_sel = selected.index(True)
+            if any(not s for s in selected[:first_sel]):
+                stats.probes['ss_unselected_before_selected'] += 1
+        if not lengths:
+            # nothing is selected: the statement does not say whether a non-empty sequence is then an error
+            stats.probes['ss_nothing_selected'] += 1
+            if not raised:
+                for j, mol in enumerate(system.molecules):
+                    changed = [k for k in mol.nodes if mol.nodes[k].get(proc.attribute, None) != snap[j].get(k)]
+                    if changed:
+                        child.fail('C17', 'unselected-molecule-annotated', expected='molecule %d left untouched' % j,
+                                   actual={'nodes': changed[:5]}, signature='unselected-molecule-annotated')
+            return
+        # expected per the statement's three rules
+        if lengths and len(seq) == lengths[0] and len(set(lengths)) == 1:
+            expected = seq * len(lengths)
+            stats.probes['ss_rule_one_molecule_long'] += 1
+        elif len(seq) == 1:
+            expected = seq * total
+            stats.probes['ss_rule_one_element'] += 1
+        elif len(seq) == total and lengths:
+            expected = seq
+            stats.probes['ss_rule_full_length'] += 1
+        else:
+            expected = None
+            stats.probes['ss_rule_mismatch'] += 1
+        if not all(c for c, s in zip(contig, selected) if s):
+            # re-added atoms sit at the end of the node order; residues are still enumerated by first appearance
+            stats.probes['ss_residues_with_appended_atoms'] += 1
+        if expected is None:
+            if not raised:
+                child.fail('C17', 'length-mismatch-accepted', expected='an error for a sequence of length %d over %s residues'
+                           % (len(seq), lengths), actual='annotation finished',
+                           signature='length-mismatch-accepted')
+            return
+        if raised:
+            child.fail('C17', 'valid-sequence-rejected', expected='sequence of length %d accepted for molecules of %s residues'
+                       % (len(seq), lengths), actual=repr(raised),
+                       signature='valid-sequence-rejected:unselected-first' if (any(not s for s in selected)) else 'valid-sequence-rejected')
+            return
+        pos = 0
+        for j, mol in enumerate(system.molecules):
+            if not selected[j]:
+                changed = [k for k in mol.nodes if mol.nodes[k].get(proc.attribute, None) != snap[j].get(k)]
+                if changed:
+                    child.fail('C17', 'unselected-molecule-annotated', expected='molecule %d left untouched' % j,
+                               actual={'nodes': changed[:5], 'value': mol.nodes[changed[0]].get(proc.attribute)},
+                               signature='unselected-molecule-annotated')
+                continue
+            for ident, keys in residues[j]:
+                want = expected[pos]
+                pos += 1
+                got = set(mol.nodes[k].get(proc.attribute) for k in keys if k in mol.nodes)
+                if got != {want}:
+                    child.fail('C17', 'misplaced-annotation', expected={'molecule': j, 'residue': list(ident), 'value': want},
+                               actual=sorted(map(repr, got)), signature='misplaced-annotation')
+                    return
+
+    # -- AnnotateDSSP ------------------------------------------------------------
+    def begin_annotate_dssp(self, proc, system):
+        self.before['AnnotateDSSP'] = ([residues_of(m) for m in system.molecules], len(self.child.peer.calls) if self.child.peer else 0)
+
+    def end_annotate_dssp(self, proc, system, raised):
+        child = self.child
+        peer = child.peer
+        if peer is None:
+            return
+        residues, ncalls0 = self.before.pop('AnnotateDSSP')
+        stats = child.stats
+        stats.probes['ss_annotate_dssp'] += 1
+        calls = peer.calls[ncalls0:]
+        any_fault = [c for c in calls if c.get('fault')]
+        must_fail = [c for c in calls if c.get('fault') and c.get('delivered') is None]
+        if peer.fault and peer.fault[0] in ('missing',):
+            must_fail = [True]
+        if peer.fault and peer.fault[0] == 'version' and not any(ch.isdigit() for ch in peer.fault[1]):
+            must_fail = [True]
+        if raised:
+            if not any_fault and not must_fail and not (peer.fault and peer.fault[0] in ('missing', 'version', 'exit')):
+                child.fail('C17', 'dssp-stage-raised', expected='fault-free peer: annotation completes', actual=repr(raised))
+            else:
+                stats.probes['ss_peer_fault_rejected'] += 1
+            return
+        if must_fail:
+            child.fail('C17', 'peer-failure-ignored', expected='an error when the peer fails or its output cannot be parsed',
+                       actual='annotation finished', detail={'fault': peer.fault})
+            return
+        # the run finished: every residue must carry the letter the peer printed for it
+        from vermouth.selectors import is_protein
+        ci = 0
+        for j, mol in enumerate(system.molecules):
+            if not is_protein(mol):
+                continue
+            has_pos = [k for k in mol.nodes if mol.nodes[k].get('position') is not None]
+            if not has_pos:
+                continue
+            if ci >= len(calls):
+                child.fail('C17', 'peer-not-consulted', expected='one peer call per protein molecule', actual=len(calls))
+                return
+            call = calls[ci]
+            ci += 1
+            delivered = call.get('delivered')
+            intended = {}
+            dup = set()
+            for res, letter in zip(call['residues'], call['letters']):
+                ident = (res[0], res[1], res[2])
+                if ident in intended:
+                    dup.add(ident)
+                intended[ident] = 'C' if letter == ' ' else letter
+            if delivered is not None and len(delivered) != len(call['letters']):
+                if len(delivered) == 1:
+                    stats.probes['ss_peer_one_element_repeat'] += 1     # documented repetition of a one-element sequence
+                    continue
+                child.fail('C17', 'shifted-assignment', expected='an error: the peer delivered %d letters for %d residues'
+                           % (len(delivered), len(call['letters'])), actual='annotation finished',
+                           signature='shifted-assignment', detail={'fault': call.get('fault')})
+                return
+            for ident, keys in residues[j]:
+                chain, resid, icode, _resname = ident
+                pid = ((chain or ' ')[:1] or ' ', str(resid % 10000 if isinstance(resid, int) else resid)[-4:], (icode or ' ')[:1] or ' ')
+                if pid in dup or pid not in intended:
+                    continue
+                got = set(mol.nodes[k].get('aasecstruct') for k in keys if k in mol.nodes)
+                if got != {intended[pid]}:
+                    child.fail('C17', 'misplaced-annotation', expected={'molecule': j, 'residue': list(pid), 'value': intended[pid]},
+                               actual=sorted(map(repr, got)), signature='misplaced-annotation:dssp',
+                               detail={'fault': call.get('fault')})
+                    return
+            stats.probes['ss_dssp_molecule_checked'] += 1
+
+    # -- AnnotateMartiniSecondaryStructures ------------------------------------------
+    def begin_martini(self, proc, system):
+        seqs = []
+        for mol in system.molecules:
+            res = residues_of(mol)
+            seqs.append([mol.nodes[keys[0]].get('aasecstruct') for ident, keys in res])
+        self.before['Martini'] = ([residues_of(m) for m in system.molecules], seqs, [contiguous(m) for m in system.molecules])
+
+    def end_martini(self, proc, system, raised):
+        child = self.child
+        residues, seqs, contig = self.before.pop('Martini')
+        stats = child.stats
+        for j, mol in enumerate(system.molecules):
+            seq = seqs[j]
+            if all(s is None for s in seq):
+                continue
+            if any(s is None for s in seq):
+                if not raised:
+                    child.fail('C17', 'partial-annotation-accepted', expected='an error', actual='translation finished')
+                return
+            if raised:
+                child.fail('C17', 'translation-raised', expected='translation of %r' % ''.join(seq), actual=repr(raised))
+                return
+            if any(s not in TABLE for s in seq):
+                continue
+            want = martini_classes(seq)
+            got = [mol.nodes[keys[0]].get('cgsecstruct') for ident, keys in residues[j]]
+            stats.probes['ss_translation_checked'] += 1
+            runs = max((len(r) for r in ''.join('H' if TABLE[s] == 'H' else '.' for s in seq).split('.')), default=0)
+            if runs >= 8:
+                stats.probes['ss_long_helix'] += 1
+            elif runs >= 5:
+                stats.probes['ss_medium_helix'] += 1
+            elif runs >= 1:
+                stats.probes['ss_short_helix'] += 1
+            if got != want:
+                child.fail('C17', 'translation', expected=''.join(want), actual=''.join(map(str, got)),
+                           detail={'dssp': ''.join(seq)}, signature='translation')
+                return
+            for ident, keys in residues[j]:
+                vals = set(mol.nodes[k].get('cgsecstruct') for k in keys)
+                if len(vals) != 1:
+                    child.fail('C17', 'translation-not-per-residue', expected='one class per residue', actual=sorted(map(repr, vals)))
+                    return
 
 
 def evaluate(child, argv, stats):
